@@ -171,3 +171,79 @@ example : (DatabaseTr.receive ({ conns := [⟨0, 0⟩], nextId := 1 } : Server) 
     = (({ conns := [⟨0, 0⟩], nextId := 1 } : Server), RecvOut.ret (some (401, none)) true) := by decide
 
 end Primaite.Database
+
+namespace Primaite.Database
+open Primaite.Gen
+
+/-! ## The database service's logic around the two FTP transfers, translated
+
+`backup_database` and `restore_backup` are translated statement by statement as well (the transfers themselves are the
+model's `ftpSendFile` / `ftpRequestFile`).  In particular the ORDER of `restore_backup` is a proof obligation now: the
+leftover under downloads/ is removed BEFORE the backup is requested, the request is unconditional, the arrival of the copy
+is checked BEFORE the live file is deleted (F-33), and the live file is replaced by what is under downloads/ then. -/
+
+theorem C17_tr_backup (s : Server) (b : Backup) (pq big : Bool) :
+    DatabaseTr.backupDatabase s b pq big = backupDatabase s b pq big := by
+  unfold DatabaseTr.backupDatabase backupDatabase
+  cases hc : s.canAct
+  · simp
+  · cases hbc : s.backupConfigured
+    · simp
+    · cases hft : s.ftpc
+      · simp
+      · cases hf : s.file
+        · simp
+        · simp only [Bool.not_true, Bool.false_eq_true, if_false, Option.isSome_some, Option.isNone_some]
+          cases hr : (ftpSendFile s b pq big).2.2
+          · simp only [Bool.false_eq_true, if_false]; rw [← hr]
+          · simp only [if_true]; rw [← hr]
+
+/-- removing the leftover if there is one = having no leftover -/
+theorem leftover_removed (s : Server) :
+    (if s.downloads.isSome then { s with downloads := none } else s) = { s with downloads := none } := by
+  cases hd : s.downloads with
+  | some d => simp
+  | none => simp only [Option.isSome_none, Bool.false_eq_true, if_false]; cases s; simp_all
+
+/-- the replacement step as translated (arrival check, "file not initialised" check, delete the live file unless it is
+deleted already, copy the download in, check, set GOOD) = the model's -/
+theorem restore_tail (s' : Server) :
+    (if s'.downloads.isNone = true then (s', false)
+     else if false = true then (s', false)
+     else
+       (let s := if s'.file.isNone = true then s' else { s' with file := none }
+        let s := match s.downloads with | some d => { s with file := some d, folder := true } | none => s
+        if s.file.isNone = true then (s, false) else (let s := { s with health := Health.good }; (s, true))))
+    = (match s'.downloads with
+       | none => (s', false)
+       | some d => ({ s' with file := some d, folder := true, health := .good }, true)) := by
+  cases hd : s'.downloads <;> cases hf : s'.file <;> simp [hd, hf]
+
+theorem C17_tr_restore (s : Server) (b : Backup) (pq pr k : Bool) :
+    DatabaseTr.restoreBackup s b pq pr k = restoreBackup s b pq pr k := by
+  unfold DatabaseTr.restoreBackup restoreBackup
+  rw [leftover_removed]
+  by_cases h1 : (!s.canAct) = true
+  · simp only [if_pos h1]
+  · simp only [if_neg h1]
+    by_cases h2 : (!s.backupConfigured) = true
+    · simp only [if_pos h2]
+    · simp only [if_neg h2]
+      by_cases h3 : s.ftpc.isNone = true
+      · have h3' : (!s.ftpc.isSome) = true := by
+          cases h : s.ftpc
+          · rfl
+          · rw [h] at h3; cases h3
+        simp only [if_pos h3, if_pos h3']
+      · have h3' : ¬ (!s.ftpc.isSome) = true := by
+          cases h : s.ftpc
+          · rw [h] at h3; exact absurd rfl h3
+          · simp
+        simp only [if_neg h3, if_neg h3']
+        generalize ftpRequestFile { s with downloads := none } b pq pr k = r
+        obtain ⟨s', resp⟩ := r
+        cases resp
+        · rfl
+        · exact restore_tail s'
+
+end Primaite.Database
